@@ -3,7 +3,7 @@ import re
 
 from .common import (fkey, where, short, arg_is_local, enclosing_loop_next, follow_value, block_line, terminal_field, callback_invocations,
                      awaited_value_local, controlling_comparisons, normalise_guard, closures_in_variant, SERVER, CORE)
-from .c01 import classification_sites, _single_region, HRC, CTOR
+from .c01 import classification_sites, _single_region, HRC, CTOR, hrc_parts
 from ..facts import op_place, op_const, AnchorLost, is_test_body
 from .. import flow
 
@@ -36,12 +36,9 @@ def _null_id(tr, b, op):
 
 def r1_gate_before_work(ctx):
     F, R = ctx.F, ctx.R
-    b = F.one(HRC)
+    (sb_, single), (b, batch) = hrc_parts(F)
     R.fn(b)
     tr = ctx.tracer(follow_callers=False, follow_fields=False)
-    single, batch = _single_region(b)
-    if batch is None:
-        raise AnchorLost("batch region of handle_rpc_call")
     disp = [c for c in b.calls if re.search(r"RpcServiceT::batch$", c.callee or "")]
     R.check(len(disp) == 1, "C02.R1", "one-batch-dispatch", "one RpcServiceT::batch site", "%d RpcServiceT::batch sites in handle_rpc_call" % len(disp), "%s:%d" % (b.file, b.lo))
     if not disp:
@@ -136,12 +133,13 @@ def r1_gate_before_work(ctx):
 
 def r2_classifier_agreement(ctx):
     F, R = ctx.F, ctx.R
-    b = F.one(HRC)
+    (sbody, _se), (b, _be) = hrc_parts(F)
+    R.fn(sbody)
     tr = ctx.tracer(follow_callers=False, follow_fields=False)
     sites = classification_sites(F, b)
-    single = [(c, k) for c, k in sites if enclosing_loop_next(b, c.bb) is None]
+    single = [(c, k) for c, k in classification_sites(F, sbody) if enclosing_loop_next(sbody, c.bb) is None]
     elem = [(c, k) for c, k in sites if enclosing_loop_next(b, c.bb) is not None]
-    so = [k for c, k in sorted(single, key=lambda x: len(b.dom[x[0].bb]))]
+    so = [k for c, k in sorted(single, key=lambda x: len(sbody.dom[x[0].bb]))]
     eo = [k for c, k in sorted(elem, key=lambda x: len(b.dom[x[0].bb]))]
     R.check(so == eo == ["call", "notif", "invalid"], "C02.R2", "classifier-lists-agree", "batch entries are classified like single messages (Request, Notification, id recovery)", "a single message is classified %s but a batch entry %s" % (so, eo), "%s:%d" % (b.file, b.lo))
     for c, k in elem:
